@@ -89,17 +89,35 @@ type uMsg struct {
 	Hdr      map[string]string // lower-case key
 }
 
-var day0 = time.Date(2020, 3, 10, 0, 0, 0, 0, time.UTC)
+// the date universe spans months and years, with day-of-month and month inversions
+// (20-Jan < 3-Feb, 31-Dec-2020 < 1-Jan-2021), ascending in the index
+var c19Days = []time.Time{
+	time.Date(2019, 12, 30, 0, 0, 0, 0, time.UTC),
+	time.Date(2020, 1, 20, 0, 0, 0, 0, time.UTC),
+	time.Date(2020, 2, 3, 0, 0, 0, 0, time.UTC),
+	time.Date(2020, 2, 4, 0, 0, 0, 0, time.UTC),
+	time.Date(2020, 3, 1, 0, 0, 0, 0, time.UTC),
+	time.Date(2020, 12, 31, 0, 0, 0, 0, time.UTC),
+	time.Date(2021, 1, 1, 0, 0, 0, 0, time.UTC),
+}
 
-func dayN(n int) time.Time { return day0.Add(time.Duration(n) * 24 * time.Hour) }
+func dayN(n int) time.Time {
+	if n < 0 {
+		n = 0
+	}
+	if n >= len(c19Days) {
+		n = len(c19Days) - 1
+	}
+	return c19Days[n]
+}
 
 func universe() []uMsg {
 	var u []uMsg
 	flagsets := [][]string{{}, {`\seen`}, {`\recent`}, {`\recent`, `\seen`}, {`\deleted`, `$a`}, {`\answered`, `\flagged`, `\draft`, `$b`}}
 	sizes := []int64{0, 1, 5, 6, 99, 100, 101, 5000}
 	i := 0
-	for d := 0; d < 5; d++ {
-		for s := -1; s < 4; s++ {
+	for d := 0; d < len(c19Days); d++ {
+		for s := -1; s < len(c19Days); s += 2 {
 			m := uMsg{Seq: uint32(i % 7), UID: uint32(i + 1), Date: dayN(d), Size: sizes[i%len(sizes)], Flags: map[string]bool{}}
 			if s >= 0 {
 				t := dayN(s)
@@ -459,7 +477,7 @@ func (g *c19) randKey(depth int) sKey {
 		}
 		return sKey{K: []string{"BCC", "CC", "FROM", "SUBJECT", "TO"}[r.Intn(5)], S: []string{"", "hello", "foo", "alice"}[r.Intn(4)]}
 	case 6, 7:
-		return sKey{K: []string{"SINCE", "BEFORE", "ON", "SENTSINCE", "SENTBEFORE", "SENTON"}[r.Intn(6)], D: r.Intn(6) - 1 + 1}
+		return sKey{K: []string{"SINCE", "BEFORE", "ON", "SENTSINCE", "SENTBEFORE", "SENTON"}[r.Intn(6)], D: r.Intn(len(c19Days))}
 	case 8:
 		return sKey{K: []string{"BODY", "TEXT"}[r.Intn(2)], S: []string{"hello", "WORLD", "bar", "zzz"}[r.Intn(4)]}
 	case 9, 10, 11:
@@ -494,16 +512,16 @@ func (g *c19) randCriteria(depth int) imap.SearchCriteria {
 		c.UID = append(c.UID, u)
 	}
 	if pick() {
-		c.Since = dayN(r.Intn(5))
+		c.Since = dayN(r.Intn(len(c19Days)))
 	}
 	if pick() {
-		c.Before = dayN(r.Intn(5))
+		c.Before = dayN(r.Intn(len(c19Days)))
 	}
 	if pick() {
-		c.SentSince = dayN(r.Intn(5))
+		c.SentSince = dayN(r.Intn(len(c19Days)))
 	}
 	if pick() {
-		c.SentBefore = dayN(r.Intn(5))
+		c.SentBefore = dayN(r.Intn(len(c19Days)))
 	}
 	if pick() {
 		c.Header = append(c.Header, imap.SearchCriteriaHeaderField{Key: []string{"Subject", "X-K", "From"}[r.Intn(3)], Value: []string{"", "foo", "v"}[r.Intn(3)]})
@@ -561,7 +579,7 @@ func runC19(h *H) {
 	andCorr := h.NewCorr("and", imports, "and_mismatches", 400)
 	keyCorr := h.NewCorr("keys", imports, "keys_mismatches", 400)
 	g := &c19{h: h, u: universe()}
-	h.Rule("(1) SearchCriteria.And on generated pairs of criteria (every field set/unset, sizes incl. 0 and negative, nested NOT/OR to depth 2): field-by-field against the model, and match results of an independent matcher on a 25-message universe distinguishing every field; (2) SEARCH commands (1..5 keys, all key kinds, NOT/OR/parenthesised lists, every permutation when <= 4 keys) through the real server parser to a recording stub session: recorded criteria against the model's parse_keys and against the RFC meaning of each key on the universe. Non-trivial = both operands constrain the same date/size field, or the command has >= 2 keys; distinct by rendered case.")
+	h.Rule("(1) SearchCriteria.And on generated pairs of criteria (every field set/unset, sizes incl. 0 and negative, nested NOT/OR to depth 2): field-by-field against the model, and match results of an independent matcher on a message universe whose dates span months and years distinguishing every field; (2) SEARCH commands (1..5 keys, all key kinds, NOT/OR/parenthesised lists, every permutation when <= 4 keys) through the real server parser to a recording stub session: recorded criteria against the model's parse_keys and against the RFC meaning of each key on the universe. Non-trivial = both operands constrain the same date/size field, or the command has >= 2 keys; distinct by rendered case.")
 
 	checkAnd := func(a, b imap.SearchCriteria, src string) {
 		a0 := cloneCrit(a)
@@ -689,11 +707,24 @@ func runC19(h *H) {
 	checkAnd(imap.SearchCriteria{Since: dayN(1)}, imap.SearchCriteria{Since: dayN(3)}, "corpus")
 	checkAnd(imap.SearchCriteria{Before: dayN(1)}, imap.SearchCriteria{Before: dayN(3)}, "corpus")
 	checkAnd(imap.SearchCriteria{Smaller: 100, Since: dayN(1)}, imap.SearchCriteria{Before: dayN(3)}, "corpus")
+	for a := 0; a < len(c19Days); a++ {
+		for b := 0; b < len(c19Days); b++ {
+			checkAnd(imap.SearchCriteria{Since: dayN(a)}, imap.SearchCriteria{Since: dayN(b)}, "corpus")
+			checkAnd(imap.SearchCriteria{Before: dayN(a)}, imap.SearchCriteria{Before: dayN(b)}, "corpus")
+			checkAnd(imap.SearchCriteria{SentSince: dayN(a)}, imap.SearchCriteria{SentSince: dayN(b)}, "corpus")
+			checkAnd(imap.SearchCriteria{SentBefore: dayN(a)}, imap.SearchCriteria{SentBefore: dayN(b)}, "corpus")
+		}
+	}
 	for _, ks := range [][]sKey{
 		{{K: "UNDELETED"}, {K: "NEW"}}, {{K: "NEW"}, {K: "UNDELETED"}}, {{K: "NEW"}},
 		{{K: "SMALLER", N: 100}, {K: "LARGER", N: 5}}, {{K: "LARGER", N: 5}, {K: "SMALLER", N: 100}},
 		{{K: "SMALLER", N: 100}, {K: "SINCE", D: 1}}, {{K: "SINCE", D: 1}, {K: "SMALLER", N: 100}},
 		{{K: "ON", D: 2}, {K: "SINCE", D: 1}}, {{K: "SENTON", D: 2}, {K: "SENTBEFORE", D: 4}},
+		// a date key whose day lies outside the range set by an earlier one: the result is empty
+		{{K: "SINCE", D: 3}, {K: "ON", D: 1}}, {{K: "BEFORE", D: 1}, {K: "ON", D: 3}}, {{K: "ON", D: 1}, {K: "ON", D: 3}}, {{K: "ON", D: 3}, {K: "ON", D: 1}},
+		{{K: "SENTSINCE", D: 3}, {K: "SENTON", D: 1}}, {{K: "SENTBEFORE", D: 1}, {K: "SENTON", D: 3}}, {{K: "SENTON", D: 2}, {K: "SENTON", D: 4}},
+		{{K: "BEFORE", D: 2}, {K: "BEFORE", D: 1}}, {{K: "BEFORE", D: 1}, {K: "BEFORE", D: 2}}, {{K: "SINCE", D: 2}, {K: "SINCE", D: 1}}, {{K: "SINCE", D: 5}, {K: "SINCE", D: 6}},
+		{{K: "SENTON", D: 2}, {K: "SENTBEFORE", D: 1}}, {{K: "SENTSINCE", D: 6}, {K: "SENTSINCE", D: 5}},
 		{{K: "NOT", Sub: []sKey{{K: "LIST", Sub: []sKey{{K: "SEEN"}, {K: "SMALLER", N: 100}}}}}},
 		{{K: "OR", Sub: []sKey{{K: "SEEN"}, {K: "LIST", Sub: []sKey{{K: "LARGER", N: 5}, {K: "SMALLER", N: 100}}}}}},
 	} {
